@@ -10,6 +10,8 @@
 (*   gib     the metric declares greater_is_better (score = -MAE) or not     *)
 (*   refit   refit the best forecaster on the whole series                   *)
 (*   kind    "grid" | "random";  nest: "plain" | "pipe" | "mux"              *)
+(*   strat   "refit" | "update": how every candidate is carried from fold to *)
+(*           fold (fit on every training window / fit once, then update)     *)
 (*   n       series length; cv = expanding window, fh = [1], one fold per    *)
 (*           table entry, last fold ending with the series                   *)
 (* Scores are reported as folds * mean score (an integer).  The all-zero table  *)
@@ -40,6 +42,7 @@ TuneOk(c, o) ==
     /\ o.best_index \in BestSet(c)                                   \* best in the declared direction
     /\ o.best_score = Score(c, o.best_index)                         \* best_* describe the same row
     /\ o.best_params = o.best_index
+    /\ o.updates = (IF c.strat = "update" THEN Len(c.tables) * (NFolds(c) - 1) ELSE 0)   \* the strategy asked for is the one used
     /\ o.template                                                    \* the forecaster handed to the tuner is left as it was
     /\ o.again                                                       \* fitting the same tuner again reports the same search
     /\ IF c.refit
@@ -53,6 +56,7 @@ TClause(c, o) ==
     ELSE IF \E i \in DOMAIN c.tables : o.windows[i] # Windows(c) THEN "SameSplitsForAll"
     ELSE IF o.best_index \notin BestSet(c) THEN "BestIsArgBestInDeclaredDirection"
     ELSE IF o.best_score # Score(c, o.best_index) \/ o.best_params # o.best_index THEN "BestTripleConsistent"
+    ELSE IF o.updates # (IF c.strat = "update" THEN Len(c.tables) * (NFolds(c) - 1) ELSE 0) THEN "StrategyAsRequested"
     ELSE IF ~o.template THEN "TemplateForecasterUntouched"
     ELSE IF ~o.again THEN "SecondFitReportsSameSearch"
     ELSE IF c.refit THEN (IF o.refit_window # <<0, c.n - 1>> THEN "RefitOnWholeSeries" ELSE "DelegatesToBest")
